@@ -146,23 +146,31 @@ GCanon(g) == [g EXCEPT !.s = Canon(g.s)]
 (* invoked; that is all the real-time order the property needs.              *)
 
 P02Init == [wr |-> {}, gets |-> {}, seen |-> {}]
-\* wr: [id, k, v (None for invalidate), done, pred]; gets: [id, k, pred] in flight;
-\* seen: <<reader, writer, key, index>> the latest index of writer's values reader has observed
+\* wr: [id, k, v (None for invalidate), done, pred, ia, tlo, thi]; gets: [id, k, pred] in flight;
+\* seen: <<reader, writer, key, index>> the latest index of writer's values reader has observed.
+\* invalidate_all is a write to every key (ia); tlo / thi are the clock readings at the
+\* invocation and at the return of a write: an invalidate_all supersedes an insert only if the
+\* insert's clock reading is certainly strictly earlier (thi of the insert < tlo of the call).
 
-IsWrite(e) == e.op \in {"Insert", "Invalidate"}
+IsWrite(e) == e.op \in {"Insert", "Invalidate", "InvalidateAll"}
+ClockOf(e) == IF "now" \in DOMAIN e THEN e.now ELSE 0
+OnKey(x, k) == x.k = k \/ x.ia
 WriterOf(v) == v \div 100
 IndexOf(v) == v % 100
 
 P02Update(ps, e) ==
     CASE e.ev = "Inv" /\ IsWrite(e) ->
            [ps EXCEPT !.wr = @ \cup {[id |-> e.id, k |-> e.k, v |-> IF e.op = "Insert" THEN e.v ELSE None,
-                                      done |-> FALSE,
-                                      pred |-> {w.id : w \in {x \in ps.wr : x.k = e.k /\ x.done}}]}]
+                                      done |-> FALSE, ia |-> (e.op = "InvalidateAll"),
+                                      tlo |-> ClockOf(e), thi |-> ClockOf(e),
+                                      pred |-> {w.id : w \in {x \in ps.wr :
+                                                  (e.op = "InvalidateAll" \/ OnKey(x, e.k)) /\ x.done}}]}]
       [] e.ev = "Inv" /\ e.op = "Get" ->
            [ps EXCEPT !.gets = @ \cup {[id |-> e.id, k |-> e.k,
-                                        pred |-> {w.id : w \in {x \in ps.wr : x.k = e.k /\ x.done}}]}]
+                                        pred |-> {w.id : w \in {x \in ps.wr : OnKey(x, e.k) /\ x.done}}]}]
       [] e.ev = "Ret" /\ \E w \in ps.wr : w.id = e.id ->
-           [ps EXCEPT !.wr = {IF w.id = e.id THEN [w EXCEPT !.done = TRUE] ELSE w : w \in ps.wr}]
+           [ps EXCEPT !.wr = {IF w.id = e.id THEN [w EXCEPT !.done = TRUE, !.thi = Max(@, ClockOf(e))] ELSE w
+                              : w \in ps.wr}]
       [] e.ev = "Ret" /\ \E q \in ps.gets : q.id = e.id ->
            LET q == CHOOSE x \in ps.gets : x.id = e.id
                others == {x \in ps.seen : ~(x[1] = e.t /\ x[2] = WriterOf(e.r) /\ x[3] = q.k)}
@@ -176,7 +184,8 @@ WroteIt(ps, k, v) == {w \in ps.wr : w.k = k /\ w.v = v}
 
 \* v, written by w, was superseded before an operation with predecessor set pred began:
 \* some write of the key that returned before that operation began was itself invoked after w returned
-Superseded(ps, w, pred) == \E x \in ps.wr : x.id \in pred /\ x.id # w.id /\ w.id \in x.pred
+Superseded(ps, w, pred) ==
+    \E x \in ps.wr : x.id \in pred /\ x.id # w.id /\ w.id \in x.pred /\ (x.ia => w.thi < x.tlo)
 
 Allowed_C02(ps, e) ==
     CASE e.ev = "Ret" /\ (\E q \in ps.gets : q.id = e.id) /\ e.r # None ->
@@ -187,7 +196,7 @@ Allowed_C02(ps, e) ==
       [] e.ev = "Final" ->                                                              \* (iii)
            \A i \in DOMAIN e.items :
               \E w \in WroteIt(ps, e.items[i].k, e.items[i].v) :
-                 ~\E x \in ps.wr : x.k = w.k /\ x.id # w.id /\ w.id \in x.pred
+                 ~\E x \in ps.wr : OnKey(x, w.k) /\ x.id # w.id /\ w.id \in x.pred /\ (x.ia => w.thi < x.tlo)
       [] OTHER -> TRUE
 
 =============================================================================
